@@ -235,6 +235,15 @@ func newSender(ep *endpoint, iss, irs seqnum.Value, sndWnd seqnum.Size, mss uint
 		s.sndWndScale = uint8(sndWndScale)
 	}
 
+	// 对端通告的MSS不包含TCP选项(RFC 6691)，数据的最大长度要减去本端每个段携带的选项长度
+	var maxSackBlocks [header.TCPMaxSACKBlocks]header.SACKBlock
+	options := ep.makeOptions(maxSackBlocks[:])
+	s.maxPayloadSize -= len(options)
+	putOptions(options)
+	if s.maxPayloadSize <= 0 {
+		s.maxPayloadSize = 1
+	}
+
 	s.updateMaxPayloadSize(int(ep.route.MTU()), 0)
 
 	s.resendTimer.init(&s.resendWaker)
